@@ -133,7 +133,7 @@ func (e *Engine) thoroughExtras(id string, keys []string) map[string]any {
 		}
 	}
 	out["smoke_harnesses_run"] = nh
-	out["smoke_violations"] = len(reports)
+	out["smoke_report_count"] = len(reports)
 	out["smoke_reports"] = reports
 	// must-fail corpus
 	var st map[string][]string
